@@ -1,3 +1,4 @@
 import ShootVerif.Drive.Loop
+import ShootVerif.Drive.Cli
 open ShootVerif.Drive
-def main : IO Unit := runDriver []
+def main : IO Unit := runDriver [("cli16", cli16Case)]
